@@ -63,6 +63,26 @@ func build(repo string) (*built, error) {
 	}
 	args := []string{"build", "-overlay", res.Overlay, "-o", filepath.Join(tmp, "worker")}
 	abs, _ := filepath.Abs(repo)
+	if os.Getenv("VERIF_COVER") != "" {
+		// development aid: statement coverage of the library under the check (GOCOVERDIR=$VERIF_COVER).
+		// The cover tool does not read overlays, so the instrumented tree is materialised on disk.
+		tree := filepath.Join(tmp, "tree")
+		if out, err := exec.Command("cp", "-r", abs, tree).CombinedOutput(); err != nil {
+			return nil, fmt.Errorf("cover: %v %s", err, out)
+		}
+		os.RemoveAll(filepath.Join(tree, ".git"))
+		var ov struct{ Replace map[string]string }
+		ob, _ := os.ReadFile(res.Overlay)
+		json.Unmarshal(ob, &ov)
+		for virt, file := range ov.Replace {
+			dst := filepath.Join(tree, strings.TrimPrefix(virt, abs))
+			os.MkdirAll(filepath.Dir(dst), 0o755)
+			data, _ := os.ReadFile(file)
+			os.WriteFile(dst, data, 0o644)
+		}
+		args = []string{"build", "-o", filepath.Join(tmp, "worker"), "-cover", "-coverpkg=github.com/creachadair/jrpc2,github.com/creachadair/jrpc2/channel,github.com/creachadair/jrpc2/handler,github.com/creachadair/jrpc2/server,github.com/creachadair/jrpc2/jhttp"}
+		abs = tree
+	}
 	if abs != "/repo" {
 		// alternative module file with the replace directive pointing at the other tree
 		gm, err := os.ReadFile(filepath.Join(engineDir, "go.mod"))
@@ -206,6 +226,9 @@ func runWorker(worker string, mem int, timeout time.Duration, args ...string) ([
 		cmd = exec.Command(worker, args...)
 	}
 	cmd.Env = append(os.Environ(), "GOMAXPROCS=1", "GOTRACEBACK=single")
+	if d := os.Getenv("VERIF_COVER"); d != "" {
+		cmd.Env = append(cmd.Env, "GOCOVERDIR="+d)
+	}
 	var so, se bytes.Buffer
 	cmd.Stdout, cmd.Stderr = &so, &se
 	if err := cmd.Start(); err != nil {
